@@ -256,6 +256,13 @@ fn line<'s>(lex: &mut Lexer<'s, MK>) -> Filter<()> {
     Filter::Skip
 }
 
+/// a user callback that happens to be called `skip` (not logos' own `skip`)
+pub mod pragma {
+    pub fn skip<'s>(lex: &mut super::Lexer<'s, super::MK>) -> usize {
+        super::note(lex)
+    }
+}
+
 /// block comments opened by a self-looping early-accept state, line comments opened by a keyword
 /// with a look-ahead (late accept): both callbacks bump and skip
 #[derive(Logos, Debug, Clone, PartialEq)]
@@ -267,8 +274,8 @@ pub enum MK {
     Rem,
     #[regex("[a-z]+", cb_val)]
     W(usize),
-    #[token("=")]
-    Eq,
+    #[regex("=+", pragma::skip)]
+    Eq(usize),
     #[token(" ")]
     Sp,
     #[token("\n")]
@@ -303,8 +310,14 @@ fn reference_mk(input: &str) -> (Vec<(String, usize, usize)>, Log) {
             items.push((format!("Ok(W({n}))"), p, p + n));
             p += n;
         } else {
+            if rest[0] == b'=' {
+                let n = rest.iter().take_while(|c| **c == b'=').count();
+                log.push((p, p + n, input[p..p + n].to_string()));
+                items.push((format!("Ok(Eq({n}))"), p, p + n));
+                p += n;
+                continue;
+            }
             let (name, n) = match rest[0] {
-                b'=' => ("Ok(Eq)", 1),
                 b' ' => ("Ok(Sp)", 1),
                 b'\n' => ("Ok(Nl)", 1),
                 b'*' => ("Ok(St)", 1),
